@@ -10,7 +10,7 @@ use sqlparser::{dialect::GenericDialect, tokenizer::{Token, Tokenizer}};
 
 const BIN: [&str; 5] = ["+", ">", "=", "AND", "OR"];
 const PRE: [&str; 2] = ["NOT", "-"];
-const SUF: [&str; 3] = ["IS NULL", "IN", "LIKE"];
+const SUF: [&str; 5] = ["IS NULL", "IN", "LIKE", "IS TRUE", "IS FALSE"];
 
 fn gen_tree(rng: &mut Rng, depth: u32) -> J {
     if depth == 0 || rng.chance(1, 4) { return json!(["atom", rng.below(4)]); }
@@ -26,14 +26,17 @@ pub fn gen(rng: &mut Rng, _k: usize, _tier: &str) -> J {
     json!({"expr": gen_tree(rng, depth), "dialect": *rng.pick(&["postgresql", "postgresql", "mssql", "bigquery", "mysql", "sqlite"])})
 }
 
-fn expr_of(j: &J) -> Expr {
+/// `as_read`: the form the reader gives back — it wraps the operand of IS TRUE / IS FALSE in a cast to boolean (the identity on a boolean)
+fn expr_of_as(j: &J, as_read: bool) -> Expr {
+    let expr_of = |j: &J| expr_of_as(j, as_read);
     match j[0].as_str().unwrap() {
         "atom" => { let i = j[1].as_u64().unwrap(); if i < 3 { Expr::col(format!("c{i}")) } else { Expr::val(7) } }
         "bin" => { let (l, r) = (expr_of(&j[2]), expr_of(&j[3])); match j[1].as_u64().unwrap() { 0 => Expr::plus(l, r), 1 => Expr::gt(l, r), 2 => Expr::eq(l, r), 3 => Expr::and(l, r), _ => Expr::or(l, r) } }
         "pre" => { let x = expr_of(&j[2]); if j[1].as_u64().unwrap() == 0 { Expr::not(x) } else { Expr::opposite(x) } }
-        _ => { let x = expr_of(&j[2]); match j[1].as_u64().unwrap() { 0 => Expr::is_null(x), 1 => Expr::in_list(x, Expr::list([1i64, 2])), _ => Expr::like(x, Expr::val("x%".to_string())) } }
+        _ => { let x = expr_of(&j[2]); match j[1].as_u64().unwrap() { 0 => Expr::is_null(x), 1 => Expr::in_list(x, Expr::list([1i64, 2])), 2 => Expr::like(x, Expr::val("x%".to_string())), 3 | 4 => { let x = if as_read { Expr::cast_as_boolean(x) } else { x }; Expr::is_bool(x, Expr::val(j[1].as_u64().unwrap() == 3)) } _ => unreachable!() } }
     }
 }
+fn expr_of(j: &J) -> Expr { expr_of_as(j, false) }
 
 /// the text as the model's tokens: `(`, `)`, `a<i>`, `op:<k>`, `pre:<k>`, `suf:<k>`; anything else is kept verbatim (and will not match)
 fn tokens(text: &str) -> Vec<String> {
@@ -53,6 +56,8 @@ fn tokens(text: &str) -> Vec<String> {
                 if w.quote_style.is_some() || (u.starts_with('C') && u.len() == 2 && w.value.as_bytes()[1].is_ascii_digit()) { out.push(format!("a{}", &w.value[1..])); }
                 else if u == "AND" { out.push("op:3".into()); } else if u == "OR" { out.push("op:4".into()); } else if u == "NOT" { out.push("pre:0".into()); }
                 else if u == "IS" && toks.get(i + 1).and_then(word).as_deref() == Some("NULL") { out.push("suf:0".into()); i += 1; }
+                else if u == "IS" && toks.get(i + 1).and_then(word).as_deref() == Some("TRUE") { out.push("suf:3".into()); i += 1; }
+                else if u == "IS" && toks.get(i + 1).and_then(word).as_deref() == Some("FALSE") { out.push("suf:4".into()); i += 1; }
                 else if u == "IN" { // IN ( 1 , 2 )
                     let mut j = i + 1; let mut depth = 0; loop { match toks.get(j) { Some(Token::LParen) => depth += 1, Some(Token::RParen) => { depth -= 1; if depth == 0 { break; } } None => break, _ => {} } j += 1; }
                     out.push("suf:1".into()); i = j; }
@@ -78,7 +83,7 @@ pub fn eval(case: &J) -> Outcome {
     // the library's own reader must return the expression that was written (structural equality)
     match guarded(|| { let a = parse_expr(&text).map_err(|x| x.to_string())?; Expr::try_from(a.with(&Hierarchy::empty())).map_err(|x| x.to_string()) }) {
         // (compared through the fully parenthesised Display: the list of an IN is a different `Value` spelling after a round trip)
-        Ok(Ok(back)) => { if back != e && back.to_string() != e.to_string() {
+        Ok(Ok(back)) => { if back != e && back.to_string() != e.to_string() && back.to_string() != expr_of_as(&case["expr"], true).to_string() {
             // one observation, three properties: the rendered text does not mean what the relation means (C08), reading it back does not
             // reproduce the expression it came from (C16), and the dialect's text has another meaning (C17)
             for p in ["C08", "C16", "C17"] { out.fail(&format!("{p}/exprprint/{d}/read-back-differs"), format!("{e} is written `{text}`, which the reader takes for {back}")); } } else { out.tag("read-back-same"); } }
